@@ -60,6 +60,7 @@ func checkC14(w *World, r *Report) {
 	r.rule("C14.presence", "while ranging over one map, every lookup in the other map is a comma-ok lookup whose ok result is branched on (otherwise an absent key equals a key bound to nil)")
 	r.rule("C14.kinds", "the equality dispatch has a dedicated case for every value struct of package types that has a Val field (Symbol, List, Vector, HashMap, Set), and none of these cases compares whole structs with ==")
 	r.rule("C14.gate", "before the dispatch the function returns false unless the dynamic types are identical or both operands are sequential; the sequential predicate accepts exactly the list and vector types")
+	equalsEntryRule(w, r, "C14.entry")
 	r.rule("C14.go-equality", "Go's == / != on two lisp values is used only where neither can be a comparable struct that carries a source position (a Symbol read from text compares unequal to the same symbol read elsewhere): such values must go through Equal_Q's own case")
 	goEqualityRule(w, r, e, "C14.go-equality")
 	r.rule("C14.symmetric-shape", "every collection case compares the sizes of both operands before comparing elements, and the two sequence cases recurse through the same function element by element")
@@ -495,6 +496,7 @@ func checkC13(w *World, r *Report) {
 	r.rule("C13.maplookup", "builtins that must distinguish 'absent' from 'bound to nil' (contains?, get on sets, rename-keys) use comma-ok lookups")
 	r.rule("C13.identity", "the builtins that hand one of their arguments back unchanged are exactly the reviewed ones (where the model's result is the argument itself); every other builtin builds its result, so that its kind and contents are decided by the builtin and not by what the caller happened to pass")
 	identityRule(w, r, "C13.identity")
+	lastWinsRule(w, r, e, "C13.last-wins")
 	r.rule("C13.kind", "the kinds a collection builtin can return (computed as the possible dynamic types of its success results) stay within the kinds confirmed against the README / step files on the reviewed tree: concat, cons, rest, map, take, drop, keys, vals yield lists; vec, subvec, range vectors; assoc/dissoc/conj/update the kind of their argument; a builtin whose result could suddenly be 'whatever was passed' or another kind is reported")
 	kindRule(w, r, e, "C13.kind")
 	r.rule("C13.mapiter", "inside a loop ranging over a map, no other map is both read (or deleted from) and written: the result must not depend on Go's random iteration order")
@@ -1182,6 +1184,76 @@ func checkC17(w *World, r *Report) {
 			}
 		}
 		r.floor("C17.current-form", "errors positioned inside the evaluation loop", ncf, 10)
+		// positions are shared (tokens, forms, errors and the caller's cursor point to them): never written in place
+		r.rule("C17.position-immutable", "a Position is only written while it is still private to the activation that allocated it (a literal, new, or the result of Copy / a constructor): nothing writes through a *Position it was handed, so the cursor a caller passes to READ and the positions already attached to forms and errors never change")
+		npi := 0
+		for _, fn := range w.Funcs {
+			if isTestFunc(w, fn) || !runtimePkg(fnPkgPath(fn)) {
+				continue
+			}
+			for _, b := range fn.Blocks {
+				for _, in := range b.Instrs {
+					st, ok := in.(*ssa.Store)
+					if !ok {
+						continue
+					}
+					fa, ok := st.Addr.(*ssa.FieldAddr)
+					if !ok {
+						continue
+					}
+					if _, name, ok := w.namedStruct(derefType(fa.X.Type())); !ok || name != "Position" {
+						continue
+					}
+					npi++
+					base := fa.X
+					for {
+						inner, ok := base.(*ssa.FieldAddr) // a Position embedded in a struct that is being built
+						if !ok {
+							break
+						}
+						base = inner.X
+					}
+					r.check(e.freshPtr(base, 1), "C17.position-immutable", fn, "write to Position."+fieldName(fa.X.Type(), fa.Field), st.Pos(), "the Position was allocated in this activation", "a Position that came from outside ("+describeVal(e, fa.X, 0)+") is written in place: every holder of that position (the caller's cursor, tokens, forms, errors) sees the change")
+				}
+			}
+		}
+		r.floor("C17.position-immutable", "writes to Position fields", npi, 5)
+		// forms keep the positions the reader gave them
+		r.rule("C17.forms-keep-positions", "outside the reader and the L-notation constructors nothing assigns the Cursor of a form (List, Vector, HashMap, Set, Symbol): the evaluator and the builtins hand forms on with the position they were read at (an operand handed back by a macro keeps its own position)")
+		nk := 0
+		for _, fn := range w.Funcs {
+			p := fnPkgPath(fn)
+			if isTestFunc(w, fn) || !runtimePkg(p) || strings.HasSuffix(p, "/reader") || strings.HasSuffix(p, "/lnotation") {
+				continue
+			}
+			for _, b := range fn.Blocks {
+				for _, in := range b.Instrs {
+					st, ok := in.(*ssa.Store)
+					if !ok {
+						continue
+					}
+					fa, ok := st.Addr.(*ssa.FieldAddr)
+					if !ok || fieldName(fa.X.Type(), fa.Field) != "Cursor" {
+						continue
+					}
+					_, name, ok := w.namedStruct(derefType(fa.X.Type()))
+					if !ok {
+						continue
+					}
+					switch name {
+					case "List", "Vector", "HashMap", "Set", "Symbol":
+					default:
+						continue
+					}
+					nk++
+					// building a new value from scratch (a literal) may set its cursor; changing a copy of an existing form may not
+					al, isLit := fa.X.(*ssa.Alloc)
+					fresh := isLit && al.Comment == "complit"
+					r.check(fresh, "C17.forms-keep-positions", fn, "assignment to the Cursor of a "+name, st.Pos(), "only in a literal that builds a new value", "the position of an existing form is overwritten ("+describeVal(e, st.Val, 0)+"): errors raised in it are reported somewhere else than where it was read")
+				}
+			}
+		}
+		r.add("C17.forms-keep-positions", nil, "assignments to form cursors outside the reader", token.NoPos, "info", fmt.Sprintf("%d assignment(s)", nk))
 	} else {
 		r.undecided("C17.carrier", nil, "evaluator model", token.NoPos, m.why)
 	}
@@ -1469,6 +1541,15 @@ func checkC19(w *World, r *Report) {
 	} else {
 		r.undecided("C19.repl", nil, "REPL", token.NoPos, "function no longer resolves")
 	}
+	r.rule("C19.route-context", "whatever route a program takes (eval, load-file, REPL, a builtin calling back into the evaluator) it runs under the context of the caller: every context handed to an evaluating call is the function's own or a child of it (shared with C07.derive), so deadlines and cancellation act the same on every delivery route")
+	if m19 := newEvalModel(w, e); m19.ok {
+		nrc := ctxDeriveRule(w, r, e, m19, "C19.route-context")
+		r.floor("C19.route-context", "contexts handed to evaluating calls", nrc, 15)
+	} else {
+		r.undecided("C19.route-context", nil, "evaluator model", token.NoPos, m19.why)
+	}
+	textIntactRule(w, r, "C19.text-intact")
+	formVerbRule(w, r, "C19.form-verbs")
 	positionBlindRule(w, r, "C19.position-blind")
 	slurpVerbatimRule(w, r, "C19.slurp")
 	r.add("C19.nil-cursor", nil, "nil guards of optional positions", token.NoPos, "info", "decided by the may-panic audits of C04 and C05 (optional pointer fields are may-nil there)")
@@ -1880,16 +1961,38 @@ func checkC20(w *World, r *Report) {
 			lenArgs := Term{Kind: 1, K: e.keyOf(fn.Params[len(fn.Params)-1])}
 			up, lo := false, false
 			for _, f := range e.holding(mk.Block()).list() {
-				if f.Kind == "le" && f.A.String() == lenArgs.String() {
+				// compared with a bound parameter, not with a constant
+				if f.Kind == "le" && f.A.String() == lenArgs.String() && f.B.Kind == 2 {
 					up = true
 				}
-				if f.Kind == "le" && f.B.String() == lenArgs.String() {
+				if f.Kind == "le" && f.B.String() == lenArgs.String() && f.A.Kind == 2 {
 					lo = true
 				}
 			}
 			okDom = up && lo
 		}
 		r.check(okDom, "C20.checked-first", fn, "count check before building the arguments", fn.Pos(), "the argument vector is built only when min <= count <= max", "the argument vector is built (and the function invoked) without both count bounds having been checked")
+		// every way out of the builder that hands back a vector has passed both bound checks
+		lenArgs := Term{Kind: 1, K: e.keyOf(fn.Params[len(fn.Params)-1])}
+		for _, b := range fn.Blocks {
+			if len(b.Instrs) == 0 {
+				continue
+			}
+			ret, ok := b.Instrs[len(b.Instrs)-1].(*ssa.Return)
+			if !ok || len(ret.Results) == 0 || isNilConst(ret.Results[0]) {
+				continue
+			}
+			up, lo := false, false
+			for _, f := range e.holding(b).list() {
+				if f.Kind == "le" && f.A.String() == lenArgs.String() && f.B.Kind == 2 {
+					up = true
+				}
+				if f.Kind == "le" && f.B.String() == lenArgs.String() && f.A.Kind == 2 {
+					lo = true
+				}
+			}
+			r.check(up && lo, "C20.checked-first", fn, "return of an argument vector", ret.Pos(), "after both bound checks", "a path hands back an argument vector (so the function is invoked) without the count having been compared with both bounds")
+		}
 	}
 	// the two builders box argument k into slot k (+1 when the context occupies slot 0), in both branches
 	for _, pr := range []struct {
@@ -2316,6 +2419,11 @@ func unboxed(v ssa.Value) ssa.Value {
 		case *ssa.MakeInterface:
 			v = x.X
 		case *ssa.ChangeInterface:
+			v = x.X
+		case *ssa.ChangeType:
+			if _, isIface := x.Type().Underlying().(*types.Interface); !isIface {
+				return v
+			}
 			v = x.X
 		default:
 			return v
@@ -2855,4 +2963,205 @@ func isPeekResult(v ssa.Value, seen map[ssa.Value]bool) bool {
 		return len(x.Edges) > 0
 	}
 	return false
+}
+
+// registeredOverride: the function value registered with CallOverrideFN under the given lisp name.
+func (w *World) registeredOverride(name string) (*ssa.Function, ssa.Instruction) {
+	callB := w.Fn("lib/call", "CallOverrideFN")
+	for _, fn := range w.Funcs {
+		if isTestFunc(w, fn) {
+			continue
+		}
+		for _, b := range fn.Blocks {
+			for _, in := range b.Instrs {
+				c, ok := in.(*ssa.Call)
+				if !ok || c.Call.StaticCallee() != callB || callB == nil {
+					continue
+				}
+				k, ok := c.Call.Args[1].(*ssa.Const)
+				if !ok || k.Value == nil || k.Value.Kind() != constant.String || constant.StringVal(k.Value) != name {
+					continue
+				}
+				v := c.Call.Args[2]
+				if mi, ok := v.(*ssa.MakeInterface); ok {
+					v = mi.X
+				}
+				switch g := v.(type) {
+				case *ssa.Function:
+					return g, in
+				case *ssa.MakeClosure:
+					return g.Fn.(*ssa.Function), in
+				}
+			}
+		}
+	}
+	return nil, nil
+}
+
+// equalsEntryRule: the lisp function = is Equal_Q and nothing else.
+func equalsEntryRule(w *World, r *Report, rule string) {
+	r.rule(rule, "the builtin registered as = returns Equal_Q of its two arguments on every path, with no comparison of its own in front of it (a shortcut there would make the top level of = disagree with the equality used inside collections)")
+	eq := w.Fn("types", "Equal_Q")
+	fn, _ := w.registeredOverride("=")
+	if fn == nil || eq == nil {
+		r.undecided(rule, nil, "registration of =", token.NoPos, "the function registered under the name = (or Equal_Q) no longer resolves")
+		return
+	}
+	n := 0
+	for _, rt := range errorReturns(fn) {
+		ret := rt[0].(*ssa.Return)
+		v, _ := rt[1].(ssa.Value)
+		ev, _ := rt[2].(ssa.Value)
+		if v == nil || (ev != nil && !isNilConst(ev)) {
+			continue
+		}
+		n++
+		okV := false
+		if c, ok := unboxed(v).(*ssa.Call); ok && c.Call.StaticCallee() == eq && len(c.Call.Args) == 2 && len(fn.Params) >= 2 {
+			p0, p1 := ssa.Value(fn.Params[len(fn.Params)-2]), ssa.Value(fn.Params[len(fn.Params)-1])
+			okV = c.Call.Args[0] == p0 && c.Call.Args[1] == p1
+		}
+		r.check(okV, rule, fn, "value returned by =", ret.Pos(), "Equal_Q(a, b)", "= answers with something other than Equal_Q of its two arguments ("+describeVal(nil, v, 0)+"): equality at the top level differs from equality of the same values inside a list or map")
+	}
+	r.floor(rule, "success returns of =", n, 1)
+}
+
+// lastWinsRule: while a map is being filled from a sequence of pairs, no store is skipped because the key is
+// already there (the model is a left-to-right fold of assoc: the last value wins).
+func lastWinsRule(w *World, r *Report, e *Engine, rule string) {
+	r.rule(rule, "in the constructors and builtins that fill a map from a sequence of key/value pairs, no store into the map being built is conditional on the key being (or not being) already present in that same map: a repeated key takes the last value, as a fold of assoc does")
+	n := 0
+	for _, fn := range w.Funcs {
+		if isTestFunc(w, fn) || !runtimePkg(fnPkgPath(fn)) {
+			continue
+		}
+		for _, b := range fn.Blocks {
+			for _, in := range b.Instrs {
+				mu, ok := in.(*ssa.MapUpdate)
+				if !ok || !lispContainer(mu.Map.Type()) {
+					continue
+				}
+				n++
+				skipped := ""
+				for _, a := range knownConds(b) {
+					ex, ok := a.v.(*ssa.Extract)
+					if !ok || ex.Index != 1 {
+						continue
+					}
+					lk, ok := ex.Tuple.(*ssa.Lookup)
+					if !ok || !lk.CommaOk {
+						continue
+					}
+					if lk.X == mu.Map || e.keyOf(lk.X).String() == e.keyOf(mu.Map).String() {
+						skipped = describeVal(e, lk.X, 0)
+					}
+				}
+				r.check(skipped == "", rule, fn, "store into a map being built", mu.Pos(), "unconditional with respect to what the map already holds", "the store is skipped or taken depending on whether the key is already in the map being built ("+skipped+"): a repeated key does not take the last value")
+			}
+		}
+	}
+	r.floor(rule, "stores into maps being built", n, 10)
+}
+
+// formVerbRule: a form (or any lisp value that can contain forms) formatted with %v / %s drags the source
+// positions stored in its Cursor fields into the text; the text then differs between deliveries of the same
+// program.  Only %T (the kind) is position-free; values are shown to programs through the printer.
+func formVerbRule(w *World, r *Report, rule string) {
+	r.rule(rule, "no fmt.Errorf / Sprintf / Sprint in the evaluator, the builtins, the environment and the value types formats a lisp value (an interface holding forms, or List/Vector/HashMap/Set/Symbol/MalFunc) with a verb that prints its contents (%v, %s, %q, %+v, %#v): fmt would print the Cursor pointers' positions; %T and the printer are position-free")
+	n := 0
+	for _, fn := range w.Funcs {
+		p := fnPkgPath(fn)
+		if isTestFunc(w, fn) || !runtimePkg(p) || strings.HasSuffix(p, "/printer") || strings.HasSuffix(p, "/lisperror") {
+			continue
+		}
+		for _, b := range fn.Blocks {
+			for _, in := range b.Instrs {
+				c, ok := in.(*ssa.Call)
+				if !ok || c.Call.StaticCallee() == nil || fnPkgPath(c.Call.StaticCallee()) != "fmt" {
+					continue
+				}
+				name := c.Call.StaticCallee().Name()
+				var format string
+				var ops []ssa.Value
+				switch name {
+				case "Errorf", "Sprintf":
+					f, ok := constString(c.Call.Args[0])
+					if !ok || len(c.Call.Args) < 2 {
+						continue
+					}
+					format, ops = f, sliceLiteralElemsOrdered(c.Call.Args[1])
+				case "Sprint", "Sprintln":
+					ops = sliceLiteralElemsOrdered(c.Call.Args[0])
+					format = strings.Repeat("%v", len(ops))
+				default:
+					continue
+				}
+				verbs := formatVerbs(format)
+				for i, op := range ops {
+					if i >= len(verbs) {
+						break
+					}
+					if !carriesForms(w, unboxed(op).Type()) {
+						continue
+					}
+					n++
+					v := string(verbs[i])
+					r.check(v == "T" || v == "p", rule, fn, "lisp value formatted by fmt."+name, c.Pos(), "%T only", "operand "+describeVal(nil, unboxed(op), 0)+" is formatted with %"+v+": fmt prints the source positions stored inside the value, so the text (and what catch binds) differs between deliveries of the same program")
+				}
+			}
+		}
+	}
+	r.floor(rule, "lisp values formatted by fmt in the runtime packages", n, 5)
+}
+
+// carriesForms: values of this static type can hold forms with Cursor fields.
+func carriesForms(w *World, t types.Type) bool {
+	if isMalType(t) {
+		return true
+	}
+	if _, name, ok := w.namedStruct(t); ok {
+		switch name {
+		case "List", "Vector", "HashMap", "Set", "Symbol", "MalFunc":
+			return true
+		}
+	}
+	if s, ok := t.Underlying().(*types.Slice); ok {
+		return carriesForms(w, s.Elem())
+	}
+	return false
+}
+
+// sliceLiteralElemsOrdered: the elements of a variadic argument slice in index order.
+func sliceLiteralElemsOrdered(v ssa.Value) []ssa.Value {
+	sl, ok := v.(*ssa.Slice)
+	if !ok {
+		return nil
+	}
+	al, ok := sl.X.(*ssa.Alloc)
+	if !ok {
+		return nil
+	}
+	byIdx := map[int64]ssa.Value{}
+	max := int64(-1)
+	for _, ref := range *al.Referrers() {
+		if ia, ok := ref.(*ssa.IndexAddr); ok {
+			k, ok := ia.Index.(*ssa.Const)
+			if !ok || k.Value == nil {
+				continue
+			}
+			for _, u := range *ia.Referrers() {
+				if st, ok := u.(*ssa.Store); ok && st.Addr == ssa.Value(ia) {
+					byIdx[k.Int64()] = st.Val
+					if k.Int64() > max {
+						max = k.Int64()
+					}
+				}
+			}
+		}
+	}
+	var out []ssa.Value
+	for i := int64(0); i <= max; i++ {
+		out = append(out, byIdx[i])
+	}
+	return out
 }
